@@ -30,7 +30,8 @@ LEAVES = [
     ('fx', 2, None, None),
     ('fx', 2, LO + NOON, HI + NOON),
 ]
-SCALARS = [0, 2, 0.5]
+# the neutral elements 1 and 1.0 included: an expression with them is still an expression (a missing operand is skipped, the number counts)
+SCALARS = [0, 2, 0.5, 1, 1.0]
 OPS = ['+', '-', '*', '/', '|']
 
 
